@@ -187,6 +187,46 @@ impl Model for WriterModel {
                     ));
                 }
             }
+            // (3) the same script in a handler that then reports a parse error, and in one that also changes the
+            // prompt: the handler's text keeps its own lines, exactly one `error:` row follows / the new prompt
+            // starts a fresh line
+            if toks.iter().all(|t| !t.is_empty()) {
+                for variant in 0..2 {
+                    let mode = if variant == 0 { HMode::ScriptErr(leaked) } else { HMode::ScriptPrompt(leaked, "é> ") };
+                    let (_n3, calls) = apply::<RawCommand<'static>>(ctx, &Ev::Key(Key::Lf, mode));
+                    stats.hit("handler_error_or_prompt_executions");
+                    let c = calls.last().unwrap();
+                    if let Some(p) = &c.panicked {
+                        v.push(Viol::new("C13/panic", format!("handler {:?} ({}) in [{}]: {}", render, variant, label, p)));
+                        continue;
+                    }
+                    let bytes: Vec<u8> = calls.iter().flat_map(|c| sink_bytes(&c.sink)).collect();
+                    let new_prompt = if variant == 0 { before.prompt } else { "é> " };
+                    let want_bytes = format!("\r\n{}{}", body, new_prompt);
+                    let got = screen_effect(before.prompt, &line, before.cursor, &bytes);
+                    let want = screen_effect(before.prompt, &line, before.cursor, want_bytes.as_bytes());
+                    if let Some(u) = &got.unknown {
+                        v.push(Viol::new("MACHINERY/emulator-unknown-sequence", u.clone()));
+                        continue;
+                    }
+                    let ok = if variant == 0 {
+                        // rows of the handler's text, then exactly one row that is the error message
+                        got.cur == want.cur
+                            && got.col == want.col
+                            && got.done.len() == want.done.len() + 1
+                            && got.done[..want.done.len()] == want.done[..]
+                            && got.done[want.done.len()].starts_with("error:")
+                    } else {
+                        got == want
+                    };
+                    if !ok {
+                        v.push(Viol::new(
+                            if variant == 0 { "C13/handler-output-then-error-framing" } else { "C13/handler-output-and-prompt-framing" },
+                            format!("handler output {:?} then {} in [{}]: screen rows {:?} + {:?}@{}, expected rows {:?}{} + {:?}@{}", render, if variant == 0 { "a parse error" } else { "a prompt change" }, label, got.done, got.cur, got.col, want.done, if variant == 0 { " + one `error:` row" } else { "" }, want.cur, want.col),
+                        ));
+                    }
+                }
+            }
         }
         // keep scripts short: the key abstracts the past, so only the writer state matters for the future
         StepOut::new(if v.is_empty() { Some(script) } else { None }, v)
